@@ -84,4 +84,7 @@ class Router:
                         client.message_from_device(message)
 
     def process_enable_blob(self, message: EnableBLOB, sender: SenderType):
+        if sender not in self.blob_routing:
+            # enableBLOB only concerns registered clients
+            return
         self.blob_routing[sender][message.device] = message.value
